@@ -23,6 +23,8 @@ type Op struct {
 	// cluster: the bulk also reaches every replica of this shard (1-based; 0 = no), as after a fail-over
 	// of the proxy's client from a partially written shard: documents present on several shards
 	DupShard int `json:"dup_shard,omitempty"`
+	// bulk through the proxy client: deadline of the request in ms of simulated time (<0: cancelled before the call)
+	CtxMs int `json:"ctx_ms,omitempty"`
 
 	// search (+ immediate fetch of the hits)
 	S *Search `json:"s,omitempty"`
